@@ -58,7 +58,7 @@ inductive Fail where
   | err (e : Err)      -- the parser sets `ec`
   | skip               -- outside the modelled fragment: a tag (major type 6) at an item start (or a list element that is not a uint8_t)
   | fuel               -- the fuel of the structural recursion ran out (an artefact of the model: the driver prints `fuel`, which equals
-                       -- no real outcome, so the tie would flag it; with `decode`'s fuel 2·|input|+2 it is not observed; not proved)
+                       -- no real outcome, so the tie would flag it; with `decode`'s fuel 2·|input|+2 it never occurs: Proofs.CborParserFuel.decode_ne_fuel)
   deriving DecidableEq, Repr
 
 inductive Res (α : Type) where
